@@ -840,14 +840,16 @@ func (ea ExpressionAttribute) String() string {
 	return sb.String()
 }
 
-func (ea ExpressionAttribute) formatExpression() (exp []string) {
+// formatExpression returns the lines of the formatted expression. For each line, verbatim
+// reports whether it continues a raw string literal, so must be written without indentation.
+func (ea ExpressionAttribute) formatExpression() (exp []string, verbatim []bool) {
 	trimmed := strings.TrimSpace(ea.Expression.Value)
 	if !strings.Contains(trimmed, "\n") {
 		formatted, err := format.Source([]byte(trimmed))
 		if err != nil {
-			return []string{trimmed}
+			return []string{trimmed}, []bool{false}
 		}
-		return []string{string(formatted)}
+		return []string{string(formatted)}, []bool{false}
 	}
 
 	buf := bytes.NewBufferString("[]any{\n")
@@ -856,21 +858,32 @@ func (ea ExpressionAttribute) formatExpression() (exp []string) {
 
 	formatted, err := format.Source(buf.Bytes())
 	if err != nil {
-		return []string{trimmed}
+		return []string{trimmed}, []bool{false}
 	}
 
 	// Trim prefix and suffix.
 	lines := strings.Split(string(formatted), "\n")
 	if len(lines) < 3 {
-		return []string{trimmed}
+		return []string{trimmed}, []bool{false}
+	}
+
+	// Indent all lines and re-format, gofmt only puts back the lines that it owns:
+	// the lines that stay shifted are inside a raw string literal.
+	verbatim = make([]bool, len(lines))
+	if shifted, err := format.Source(bytes.ReplaceAll(formatted, []byte("\n"), []byte("\n\t"))); err == nil {
+		if shiftedLines := strings.Split(string(shifted), "\n"); len(shiftedLines) == len(lines) {
+			for i := range lines {
+				verbatim[i] = lines[i] != shiftedLines[i]
+			}
+		}
 	}
 
 	// Return.
-	return lines[1 : len(lines)-1]
+	return lines[1 : len(lines)-1], verbatim[1 : len(lines)-1]
 }
 
 func (ea ExpressionAttribute) Write(w io.Writer, indent int) (err error) {
-	lines := ea.formatExpression()
+	lines, verbatim := ea.formatExpression()
 	if len(lines) == 1 {
 		return writeIndent(w, indent, ea.Name, `={ `, lines[0], ` }`)
 	}
@@ -878,7 +891,14 @@ func (ea ExpressionAttribute) Write(w io.Writer, indent int) (err error) {
 	if err = writeIndent(w, indent, ea.Name, "={\n"); err != nil {
 		return err
 	}
-	for _, line := range lines {
+	for i, line := range lines {
+		if verbatim[i] {
+			// Indenting the continuation of a raw string literal would change its value.
+			if _, err = io.WriteString(w, line+"\n"); err != nil {
+				return err
+			}
+			continue
+		}
 		if err = writeIndent(w, indent, line, "\n"); err != nil {
 			return err
 		}
